@@ -1,4 +1,4 @@
-import ESV.Comp.BackSemFin2
+import ESV.Comp.BackSemStrip6
 /-
 C01, back end — the compiler's back end (strip_last_label → LabelFinalizer → OpsLabelJumpToRemover, modelled statement
 by statement in ESV/Comp/Backend.lean and tied to /repo by the C03 correspondence check) preserves the behaviour of
@@ -51,5 +51,22 @@ theorem backend_preserves_noTrail (rs : List (List LItem)) (ops : List (List Com
   unfold backend at hb
   rw [stripLastLabel_noTrail rs ht] at hb
   exact ESV.Comp.finalize_remover_preserves rs (finHyp_of_wfl rs hw ht) ops hb r hr
+
+/-- strip_last_label alone: behaviour preserved and the result fit for the later passes, provided every jump target of
+the result is defined (which the success of the later passes implies, `defined_of_remover`) -/
+theorem strip_preserves (rs s : List (List LItem)) (hw : WFL rs) (hs : stripLastLabel rs = .ok s)
+    (hd : jumpTargetsDefined s) :
+    FinHyp s ∧ s.length = rs.length ∧
+    ∀ r, Equivalent (labLTS rs) (labLTS s) (labEntry rs r) (labEntry s r) :=
+  ESV.Comp.strip_preserves rs s hw hs hd
+
+/-- **The back end of the ExplorerScript compiler preserves behaviour**, for ALL labelled code: if `rs` is well formed
+(`WFL`, decidable) and `OpsLabelJumpToRemover(LabelFinalizer(strip_last_label(rs)))` succeeds with the op lists `ops`,
+then every routine of `rs` (labelled-code semantics) and of `ops` (the SSB machine) behave the same: for every outcome
+of every test the same sequence of operations and tests, the same final event, or both run forever. -/
+theorem backend_preserves (rs : List (List LItem)) (ops : List (List Comp.Op)) (hw : WFL rs) (hb : backend rs = .ok ops)
+    (r : Nat) (hr : r < rs.length) :
+    Equivalent (labLTS rs) (Machine.lts ⟨flatten (conv ops)⟩) (labEntry rs r) (Machine.entry ⟨flatten (conv ops)⟩ r) :=
+  ESV.Comp.backend_correct rs ops hw hb r hr
 
 end ESV.C01Backend
